@@ -63,7 +63,7 @@ func genC07Ops(t *rapid.T, fam []*vh.TSpec, cfg vh.Cfg, n int) []c07Op {
 	ops := make([]c07Op, n)
 	for i := range ops {
 		ts := fam[rapid.IntRange(0, len(fam)-1).Draw(t, "optype")]
-		kind := []string{"marshal", "unmarshal", "codec", "marshal", "unmarshal"}[rapid.IntRange(0, 4).Draw(t, "opkind")]
+		kind := []string{"marshal", "unmarshal", "codec", "marshal", "unmarshal", "corrupt-then-unmarshal"}[rapid.IntRange(0, 5).Draw(t, "opkind")]
 		v := vh.GenVal(t, ts, vh.VProfile{Cfg: cfg, Small: true, Depth: 2})
 		ops[i] = c07Op{Kind: kind, T: ts, V: v}
 	}
@@ -95,6 +95,22 @@ func runOp(p *plenc.Plenc, op c07Op, cfg vh.Cfg) (out string, panicked string) {
 				return nil
 			}
 			out = hex.EncodeToString(data)
+		case "corrupt-then-unmarshal":
+			// a failed decode first (its outcome is not examined), then the real one
+			data := vh.RefEncode(op.T, op.V, cfg)
+			if len(data) > 2 {
+				for _, bad := range [][]byte{data[:len(data)-1], data[:len(data)/2], append(append([]byte{}, data[:len(data)/2]...), 0xff, 0xff, 0xff, 0xff, 0x0f)} {
+					scratch := reflect.New(op.T.Build())
+					_ = p.Unmarshal(bad, scratch.Interface())
+				}
+			}
+			got, err := vh.UnmarshalFresh(p, op.T, data)
+			if err != nil {
+				out = "unmarshal-error"
+				return nil
+			}
+			b, _ := json.Marshal(got)
+			out = string(b)
 		case "unmarshal":
 			data := vh.RefEncode(op.T, op.V, cfg)
 			got, err := vh.UnmarshalFresh(p, op.T, data)
@@ -234,7 +250,7 @@ func TestC07Enumerate(t *testing.T) {
 		// fixed values: a small non-trivial value per type, drawn with a fixed rapid seed per family
 		for a := 0; a < len(fam) && a < 3; a++ {
 			for b := 0; b < len(fam) && b < 3; b++ {
-				for _, kinds := range [][2]string{{"marshal", "unmarshal"}, {"codec", "marshal"}, {"unmarshal", "unmarshal"}} {
+				for _, kinds := range [][2]string{{"marshal", "unmarshal"}, {"codec", "marshal"}, {"unmarshal", "unmarshal"}, {"corrupt-then-unmarshal", "corrupt-then-unmarshal"}} {
 					pairIdx++
 					if pairIdx%shards != shard {
 						continue
@@ -344,7 +360,7 @@ func TestC07Race(t *testing.T) {
 		ops := make([]c07Op, n)
 		for i := range ops {
 			ts := fam[(r/7+i*3+seed)%len(fam)]
-			ops[i] = c07Op{Kind: []string{"marshal", "unmarshal", "codec"}[(r+i)%3], T: ts, V: c07FixedVal(ts)}
+			ops[i] = c07Op{Kind: []string{"marshal", "unmarshal", "codec", "corrupt-then-unmarshal"}[(r+i)%4], T: ts, V: c07FixedVal(ts)}
 		}
 		want := make([]string, n)
 		for i, op := range ops {
